@@ -127,6 +127,23 @@ def gen_case(r, k, same=None, long_=False):
     c["events"] = (not c["toggle"]) and c["tsf"] == 1 and r.random() < (0.7 if per1 else 0.3)
     # the abf bias defined while the simulation is running: 1..3 steps are made before its `config`
     c["late"] = (not c["toggle"]) and (not c["events"]) and c["tsf"] == 1 and r.random() < 0.15
+    # eABF: every variable is an extended-Lagrangian distanceZ (the bias bins the extended coordinate, its samples are the
+    # spring force on it one step late); lagged convention, no hideJacobian (excluded), other bias: harmonic on the extended coordinate
+    c["eabf"] = (not same) and (not c["toggle"]) and (not c["events"]) and (not c["late"]) and c["tsf"] == 1 and r.random() < 0.12
+    if c["eabf"]:
+        c["hideJ"] = False
+        c["T"] = r.choice([250.0, 1000.0])
+        c["scaled"] = False
+        c["sfac"] = []
+        c.pop("input", None)
+        for v in vars_:
+            v["sub"] = False      # (with subtractAppliedForce the code reports the spring force directly, the lagged model computes
+                                  #  (e + f) - f: equal in R, not bit for bit)
+            v["kind"], v["periodic"], v["lk"], v["walls"] = "dz", False, None, None
+            v.pop("P", None)
+            v["lower"] = V.dyadic(r, -4, 4, bits=3)
+            v["upper"] = v["lower"] + v["w"] * v["nx"]
+            v["ext"] = {"sigma": v["w"] * r.choice([0.5, 1.0, 2.0]), "tau": r.choice([10.0, 40.0])}
     nsteps = r.randint(60, 160) if long_ else r.randint(6, 26)
     steps = []
     prev = None
@@ -188,6 +205,8 @@ def gen_case(r, k, same=None, long_=False):
     # power of two around 1e-8 or 1e8 (exact), the forces staying of order one
     # (scales around 1e-8 are refused by the grid code itself: absolute tolerances 1e-10 on boundaries and widths, C15/C16)
     c["scale"] = r.choice([1.0, 1.0, 1.0, 2.0 ** -10, 2.0 ** 27])
+    if c.get("eabf"):
+        c["scale"] = 1.0
     if c["scale"] != 1.0:
         S = c["scale"]
         for d, v in enumerate(vars_):
@@ -392,6 +411,8 @@ def config_lines(c, part="all"):
             L += ["  timeStepFactor %d" % c["tsf"]]
         if v["sub"]:
             L += ["  subtractAppliedForce on"]
+        if v.get("ext"):
+            L += ["  extendedLagrangian on", "  extendedFluctuation %s" % fmt(v["ext"]["sigma"]), "  extendedTimeConstant %s" % fmt(v["ext"]["tau"])]
         if kind(v) == "dist":
             L += ["  distance {", "    group1 { atomNumbers %d }" % amap[d][1], "    group2 { atomNumbers %d }" % amap[d][0]]
             if v.get("onesite"):
@@ -593,7 +614,7 @@ def model_case(c, im=None):
 
 
 # ------------------------------------------------------------------------------- parsing
-KEYS = ("bin", "fbin", "cf", "tf", "af", "cnt", "sum", "go", "scr", "per", "nx")
+KEYS = ("bin", "fbin", "cf", "tf", "af", "cnt", "sum", "go", "scr", "xv", "zc", "zs", "per", "nx")
 
 
 def parse_fields(tokens):
@@ -607,7 +628,7 @@ def parse_fields(tokens):
         elif cur is not None:
             # a token cut short by a crash of the implementation (or garbage) never compares equal
             try:
-                if cur in ("bin", "fbin", "cnt", "per", "nx", "scr"):
+                if cur in ("bin", "fbin", "cnt", "per", "nx", "scr", "zc"):
                     out[cur].append(int(t))
                 else:
                     out[cur].append(float.fromhex(t))
@@ -836,7 +857,7 @@ def parse_state(path):
         txt = open(path, errors="replace").read()      # a binary state has no text block: None
     except OSError:
         return None
-    m = re.search(r"abf\s*\{.*?\nsamples\s*\n(.*?)\n\s*\ngradient\s*\n(.*?)\n\}", txt, flags=re.S)
+    m = re.search(r"abf\s*\{.*?\nsamples\s*\n(.*?)\n\s*\ngradient\s*\n(.*?)\n(?:\s*\n|\})", txt, flags=re.S)
     if not m:
         return None
     try:
@@ -857,6 +878,59 @@ def parse_multicol(path, nd, mult):
         return out
     except (OSError, ValueError):
         return None
+
+
+def eabf_effective(c, impl_steps):
+    """eABF: the history the bias sees.  Value of each variable = its extended coordinate (taken from the implementation: its
+    integrator is C17's subject), system force = the spring force on the extended coordinate f = (-0.5 k) * (2 (x_ext - x)),
+    k = kB T / sigma^2, computed here from the positions given to the engine"""
+    import copy
+    ce = copy.deepcopy(c)
+    ce["eabf_actual"] = [list(st["z"]) for st in c["steps"]]
+    for t, st in enumerate(ce["steps"]):
+        if t >= len(impl_steps) or "xv" not in impl_steps[t]:
+            return None
+        xe = impl_steps[t]["xv"]
+        if any(not (abs(x_) < 1e6) for x_ in xe):
+            return "diverged"      # the extended coordinate ran away (bin numbers beyond int): skipped, not a C04 matter
+        for d, v in enumerate(c["vars"]):
+            k = KB * c["T"] / (v["ext"]["sigma"] * v["ext"]["sigma"])
+            st["e"][d] = (-0.5 * k) * (2.0 * (xe[d] - c["steps"][t]["z"][d]))
+            st["z"][d] = xe[d]
+    for v in ce["vars"]:
+        v.pop("ext", None)
+    ce["eabf"] = False
+    return ce
+
+
+def czar_oracle(c, ce, impl_steps):
+    """z_samples / z_gradients as colvarbias_abf::update fills them: at every step at which the bias accumulates, the sample
+    (force of the previous step) is added to the bin of the ACTUAL value of the current step"""
+    nd = len(c["vars"])
+    nt = 1
+    for v in c["vars"]:
+        nt *= v["nx"]
+    clk = clocks(ce)
+    zc, zs = [0] * nt, [Fr(0)] * (nt * nd)
+    for t in range(1, len(ce["steps"])):
+        rel, cont = clk[t]
+        if not (ce["update"] and rel > 0 and not cont):
+            continue
+        ix = bin_of(c, c["steps"][t])
+        if not in_grid(c, ix):
+            continue
+        st = ce["steps"][t - 1]
+        o = other_forces(ce, st)
+        a = address(c, ix)
+        zc[a] += 1
+        for d, v in enumerate(ce["vars"]):
+            zs[a * nd + d] -= Fr(st["e"][d]) + (Fr(0) if v["sub"] else Fr(o[d]))
+    last = impl_steps[-1]
+    if last.get("zc") != zc:
+        return [("czar:z-samples", "z_samples %s differ from the number of accumulation steps per bin of the actual value %s" % (last.get("zc"), zc))]
+    if "zs" not in last or not all(close(a_, b_) for a_, b_ in zip(zs, last["zs"])):
+        return [("czar:z-gradients", "z_gradients %s differ from minus the summed samples per bin of the actual value %s" % (last.get("zs"), [float(x) for x in zs]))]
+    return []
 
 
 def oracle(c, impl_steps, state=None, files=None, loads=None):
@@ -1402,7 +1476,11 @@ def tie_case(run, c, im, mline):
         run.mismatch("abf:steps", {"case": c}, len(steps_i), len(msteps))
         return
     for t, (a, b) in enumerate(zip(steps_i, msteps)):
-        if t == 0 and c.get("pre"):
+        if c.get("eabf_actual"):
+            # eABF: the reported total force is dumped after update_extended_Lagrangian has replaced it by this step's; the script
+            # entry points look at the actual value
+            bad = compare_fields(a, b, keys=("bin", "fbin", "cnt", "sum", "cf", "af", "go"))
+        elif t == 0 and c.get("pre"):
             # first update of a bias defined at run time: the reported total force of a variable that was already measuring
             # total forces (subtractAppliedForce) is that of the last step before the definition, which the model of the
             # bias does not contain; everything else is compared
@@ -1482,6 +1560,20 @@ def check(run):
             continue
         steps_i = im["steps"]
         nd = len(c["vars"])
+        if c.get("eabf"):
+            run.dist("eABF_cases")
+            ce = eabf_effective(c, steps_i)
+            if ce == "diverged":
+                run.dist("eABF_cases_skipped_extended_coordinate_diverged")
+                continue
+            if ce is None:
+                run.mismatch("abf:eabf-dump", {"case": c}, None, "extended coordinate dumped at every step")
+                continue
+            for sig, text in czar_oracle(c, ce, steps_i):
+                run.violation(sig, "case %s: %s" % (c["id"], text), {"kind": "case", "case": c})
+            c_orig, c = c, ce
+            mline = V.run_lines(model, [model_case(ce, im)])[1]
+            mout[k] = mline[0] if mline else None
         # evidence
         visited = set()
         outside = 0
